@@ -152,9 +152,10 @@ os.chdir(spec['cwd'])
 sys.argv = spec['argv']
 sys.stdout = open(os.devnull, 'w')
 real = cli.auto_map
-def auto_map(refrence_coordinates, species, scale=0.5, outfile=None):
+def auto_map(*args, **kwargs):
+    species = args[1] if len(args) > 1 else kwargs['species']
     json.dump([[os.path.abspath(x) for x in s] for s in species], open(sys.argv_spec + '.species', 'w'))
-    return real(refrence_coordinates, species, scale, outfile)
+    return real(*args, **kwargs)
 sys.argv_spec = os.path.abspath(sys.argv_spec) if hasattr(sys, 'argv_spec') else None
 cli.auto_map = auto_map
 np.random.seed(spec['seed'])
@@ -392,12 +393,14 @@ def run_world(ctx, case):
     recorded = {}
 
     def make(real):
-        def auto_map(refrence_coordinates, species, scale=0.5, outfile=None):
+        def auto_map(*args, **kwargs):
+            refrence_coordinates, species, scale, outfile = bus.seen(('refrence_coordinates', 'species', 'scale', 'outfile'), args, kwargs,
+                                                                     {'scale': 0.5})
             recorded['species'] = [list(s) for s in species]
             recorded['scale'] = scale
             recorded['outfile'] = outfile
             recorded['ref'] = refrence_coordinates
-            return real(refrence_coordinates, species, scale, outfile)
+            return real(*args, **kwargs)
         return auto_map
     before_files = {os.path.join(dp, f) for dp, _, fs in os.walk(root) for f in fs}
     old_argv, old_cwd, old_steps = sys.argv, os.getcwd(), Alignment.STEPS_FACTOR
